@@ -17,13 +17,15 @@ DROP_KW = {'typename', 'template', 'inline', 'BOOST_NOINLINE', 'BOOST_FORCEINLIN
 EXC_RET = '( HandledEnum ) 0'
 
 def back_xform(templates, typevars=None, refparams=('fsm',), throwers=(), members=(), methods=(),
-               rewrites=(), exc_ret=EXC_RET, enums=None, pre_rewrites=(), try_=False, drop=DROP_KW, refvals=(), post=None):
+               rewrites=(), exc_ret=EXC_RET, enums=None, pre_rewrites=(), try_=False, drop=DROP_KW, refvals=(), post=None, foreach=False, size_of=None):
     def xf(tk, F):
         tk = X.rule_pp(tk, F)
         tk = X.rule_ns(tk, F)
         if pre_rewrites: tk = X.rule_rewrites(tk, F, pre_rewrites)
         tk = X.rule_drop(tk, F, drop)
         tk = X.rule_constexpr_if(tk, F)
+        if foreach:
+            tk = X.rule_foreach(tk, F, size_of); tk = X.rule_decltype(tk, F)
         tk = X.rule_stmt_macros(tk, F)
         tk = X.rule_casts(tk, F)
         if enums: tk = X.rule_enumq(tk, F, enums)
